@@ -117,11 +117,12 @@ def eq(x, y):
             return eq(xkey, ykey) and eq(xval, yval)
         else:
             return False
-    elif isinstance(x, np.timedelta64) or isinstance(y, np.timedelta64): 
-        # a duration pandas does not hold (years / months, finer than nanoseconds). numpy's == also equates it with the int it counts: 1 == timedelta64(1,'Y') == timedelta64(12,'M') == 12
+    elif isinstance(x, (np.datetime64, np.timedelta64)) or isinstance(y, (np.datetime64, np.timedelta64)): 
+        # a time pandas does not hold (a duration in years / months, a unit finer than nanoseconds, out of bounds). numpy's == also equates a duration with the int it counts: 1 == timedelta64(1,'Y') == timedelta64(12,'M') == 12,
+        # and pd.Timestamp's == truncates to nanoseconds: datetime64(0,'ps') and datetime64(1,'ps') both == Timestamp(0), which is == datetime(1970,1,1), while datetime64(0,'ps') != datetime(1970,1,1)
         try:
-            return isinstance(x, np.timedelta64) and isinstance(y, np.timedelta64) and bool(x == y)
-        except TypeError: # years / months have no common unit with weeks...attoseconds
+            return type(x) == type(y) and bool(x == y)
+        except (TypeError, OverflowError): # years / months have no common unit with weeks...attoseconds
             return False
     elif isinstance(x, float) and np.isnan(x):
         return isinstance(y, float) and np.isnan(y)    
